@@ -113,6 +113,22 @@ static bool check_stop(int id)
         memcpy(q, s, l); q[l] = 'x'; q[l + 1] = 0;
         if (!has_nul && binson_parser_string_equals(p, q)) return fail("equals-extension", "node %d: string_equals(value + one byte) is true", id);
         vf_count(CT_EQUALS_FALSE, 1);
+        /* length differences on both sides of every power of two (a difference narrowed to 8 or 16 bits compares as 0 or with the
+           wrong sign): proper prefixes shorter by d, extensions longer by d, d = 2^k - 1, 2^k, 2^k + 1, k = 1..17; on the long-payload family only (>= 100 bytes), which holds 128-, 32768- and 65537-byte strings */
+        if (!has_nul && l >= 100) for (int k = 1; k <= 17; k++) for (int dd = -1; dd <= 1; dd++) {
+            size_t d = ((size_t) 1 << k) + (size_t) dd;
+            if (d < 2 || (k > 1 && dd == -1 && d == ((size_t) 1 << (k - 1)) + 1)) continue;
+            if (l >= d) {
+                memcpy(q, s, l - d); q[l - d] = 0;
+                if (binson_parser_string_equals(p, q)) return fail("equals-prefix-d", "node %d: string_equals(prefix shorter by %zu bytes) is true", id, d);
+                vf_count(CT_EQUALS_FALSE, 1);
+            }
+            if (l + d + 1 < sizeof q) {
+                memcpy(q, s, l); memset(q + l, 'x', d); q[l + d] = 0;
+                if (binson_parser_string_equals(p, q)) return fail("equals-extension-d", "node %d: string_equals(value + %zu bytes) is true", id, d);
+                vf_count(CT_EQUALS_FALSE, 1);
+            }
+        }
     } else {
         if (binson_parser_string_equals(p, "") || binson_parser_string_equals(p, "s0")) return fail("equals-nonstring", "node %d (%s): string_equals is true on a non-string", id, kname[x->kind]);
         vf_count(CT_EQUALS_FALSE, 2);
